@@ -211,8 +211,15 @@ func (e *Engine) summary(fn *ssa.Function) *modSummary {
 						res.top = true
 					}
 					for c, me := range ms.m {
-						local := !me.all && len(me.refs) > 0
+						local := !me.all && (len(me.refs) > 0 || len(me.subRoots) > 0)
 						for _, r := range me.refs {
+							al, isA := r.(*ssa.Alloc)
+							if !isA || allocEscapes(al) {
+								local = false
+							}
+						}
+						// nested sub-objects of a local that never escapes are local too
+						for _, r := range me.subRoots {
 							al, isA := r.(*ssa.Alloc)
 							if !isA || allocEscapes(al) {
 								local = false
@@ -285,6 +292,17 @@ func (e *Engine) summary(fn *ssa.Function) *modSummary {
 							if okAll {
 								continue
 							}
+						}
+					}
+					if fc := e.funcC[callee]; fc != nil && fc.Kind == "func" && fc.HasModifies {
+						// a repo callee with a declared frame: the declaration is used
+						// (it is checked against that callee's own body, see
+						// checkDeclaredFrame; this also closes recursion)
+						if comps, ok := e.declaredFrameComps(callee, fc); ok {
+							for k, v := range comps {
+								res.comps[k] = v
+							}
+							continue
 						}
 					}
 					if callee.Pkg != nil && e.isRepoPkg(callee.Pkg.Pkg) {
@@ -416,4 +434,89 @@ func (f *frame) havocComps(st *bstate, comps map[string]string) {
 	if len(comps) > 0 {
 		f.reassumeParamInvs(st)
 	}
+}
+
+// declaredFrameComps: the heap components a `modifies` clause of a repository
+// function allows it to write: nothing, the pointee of a pointer parameter
+// (`modifies p`), or the elements of a slice parameter (`modifies s[*]`).
+func (e *Engine) declaredFrameComps(fn *ssa.Function, fc *FuncC) (map[string]string, bool) {
+	if e.sumFrame == nil {
+		vc := e.newVC(nil)
+		e.sumFrame = &frame{vc: vc, vals: map[ssa.Value]TV{}, lvs: map[ssa.Value]*LV{}, callOrd: map[string]int{}}
+	}
+	f := e.sumFrame
+	out := map[string]string{}
+	for _, m := range fc.Modifies {
+		m = strings.TrimSpace(m)
+		if m == "" || m == "nothing" {
+			continue
+		}
+		name := strings.TrimSuffix(m, "[*]")
+		var prm *ssa.Parameter
+		for _, p := range fn.Params {
+			if p.Name() == name {
+				prm = p
+			}
+		}
+		if prm == nil {
+			return nil, false
+		}
+		if strings.HasSuffix(m, "[*]") {
+			sl, ok := prm.Type().Underlying().(*types.Slice)
+			if !ok {
+				return nil, false
+			}
+			es := f.sortOf(sl.Elem())
+			out[compMem(es)] = arr2(es)
+			continue
+		}
+		if _, ok := prm.Type().Underlying().(*types.Pointer); !ok {
+			return nil, false
+		}
+		ms := newModSet()
+		okStore := true
+		func() {
+			defer func() {
+				if r := recover(); r != nil {
+					okStore = false
+				}
+			}()
+			f.storeComps(prm, ms)
+		}()
+		if !okStore || ms.star {
+			return nil, false
+		}
+		for c, me := range ms.m {
+			out[c] = me.sort
+		}
+	}
+	return out, true
+}
+
+// checkDeclaredFrame compares what the body of a repository function with a
+// `modifies` clause may write (syntactic, transitive summary) with what the
+// clause allows. The comparison is by heap component (type and field), not by
+// object: `modifies p` allows writes to the fields of p's pointee type.
+func (e *Engine) checkDeclaredFrame(fn *ssa.Function, fc *FuncC) (ok bool, why string) {
+	allowed, okDecl := e.declaredFrameComps(fn, fc)
+	if !okDecl {
+		return false, "the modifies clause names something other than a pointer parameter, a slice parameter's elements or nothing"
+	}
+	// the function's own summary: its body is analysed; declared frames are used
+	// only at calls (recursive calls to itself included)
+	s := e.summary(fn)
+	if s.top {
+		return false, "the body's writes cannot be bounded (dynamic call, goroutine or foreign call that may write anything)"
+	}
+	var extra []string
+	for c := range s.comps {
+		if _, ok := allowed[c]; !ok {
+			extra = append(extra, c)
+		}
+	}
+	if len(extra) > 0 {
+		sort.Strings(extra)
+		return false, "the body may write " + strings.Join(extra, ", ")
+	}
+	return true, ""
 }
